@@ -708,3 +708,55 @@ Definition accept_full (nthreads : N) (steps : list (list event)) : bool :=
 
 Definition accept (nthreads : N) (steps : list (list event)) : bool :=
   accept_fast nthreads steps || accept_full nthreads steps.
+
+(* =====================================================================================================
+   Acceptance of a FINE-GRAINED observation.  In the interleaving families the harness also parks every
+   goroutine in front of each outermost mutex acquisition of the cache (c.mu / e.mx; the first acquisition
+   after a return of LoadFunc / Close / TryClose is passed through, because the model treats such a return
+   and the lock region that follows it as one step).  One scheduler action = start a call, let one goroutine
+   go past the lock it is parked at, or let one parked callback return.  A macro step then no longer ends in
+   a state without enabled own moves (a goroutine parked in front of a lock has its next lock region enabled
+   in the model), so the step boundary is "open": the model may stop anywhere.  What the harness knows
+   instead is WHO could move: [movers] = the goroutine it released + the goroutines that were not parked at
+   a gate when the action was performed (those blocked on a close / load channel may be woken).  Goroutines
+   parked at a gate are frozen during the step: neither an own move nor an event of theirs is allowed.
+   [search_open] is a backtracking search (lazy: first try to go on without a silent move) bounded by a
+   node budget. *)
+Definition event_thread (e : event) : N :=
+  match e with
+  | ECall t _ | ERet t _ | ELoadStart t _ | ELoadEnd t _ _ | ECloseEntry t _ | ECloseExit t _
+  | ETryEntry t _ | ETryExit t _ _ => t
+  end.
+
+Fixpoint search_open (fuel : nat) (c : cfg) (s : state) (mv : list N) (evs : list event)
+                     (rest : list (list N * list event)) (b : N) : bool * N :=
+  match fuel with
+  | O => (false, b)
+  | S f =>
+      if b =? 0 then (false, 0) else
+      let b' := b - 1 in
+      let taus := fst (split_moves c s (own_labels s mv)) in
+      match evs with
+      | [] =>
+          let '(ok, b1) := match rest with
+                           | [] => (negb (panicked s), b')
+                           | (mv', evs') :: rest' => search_open f c s mv' evs' rest' b'
+                           end in
+          if ok then (true, b1) else try_all (fun s1 b2 => search_open f c s1 mv [] rest b2) taus b1
+      | e :: r =>
+          let '(ok, b1) := match (if mem (event_thread e) mv then vis_step c s e else None) with
+                           | Some s1 => search_open f c s1 mv r rest b'
+                           | None => (false, b')
+                           end in
+          if ok then (true, b1) else try_all (fun s1 b2 => search_open f c s1 mv evs rest b2) taus b1
+      end
+  end.
+
+Definition fine_events (steps : list (list N * list event)) : list event := concat (map snd steps).
+
+Definition accept_fine (steps : list (list N * list event)) : bool :=
+  match steps with
+  | [] => true
+  | (mv, evs) :: rest =>
+      fst (search_open (6 * length (fine_events steps) + 40 * length steps + 40) fixed init mv evs rest 200000)
+  end.
